@@ -59,7 +59,8 @@ class AstToODataVisitor(visitor.NodeVisitor):
 
     def visit_String(self, node: ast.String) -> str:
         """:meta private:"""
-        return "'" + node.val + "'"
+        # To represent a single quote within a string, it's doubled:
+        return "'" + node.val.replace("'", "''") + "'"
 
     def visit_Duration(self, node: ast.Duration) -> str:
         """:meta private:"""
